@@ -20,7 +20,7 @@ from valida.data import Data
 META = {
     "rule": "schemas of 1 rule (14 path shapes x 4 conditions x 2 casts), all ordered pairs of rules over "
             "(14 paths x {bool cast, int cast, no cast}) and a parent/child/grandchild triple x every document "
-            "of the cast family; a case is one (schema, document) pair; non-trivial = the reference model "
+            "of the cast family; plus 28 'dependent' schemas (a part value condition or a data-path argument that looks at a node which its own or another rule's cast replaces; both rule orders; API- and spec-built) x their own documents; a case is one (schema, document) pair; non-trivial = the reference model "
             "replaces at least one node; distinct by construction",
     "assumptions": ["two rules casting the same node to different types are skipped (the statement does not say "
                     "which wins); cast-free rules are compared only when no cast touches a node they select",
